@@ -55,6 +55,8 @@ func options(full bool) []option {
 		// the one built-in datum without shift parameters on another ellipsoid
 		// (a pure ellipsoid change)
 		{"datum=NAD27", "+datum=NAD27", true, 1, 0},
+		// a unit given by its length (the yard) instead of by name
+		{"to_meter=0.9144", "+datum=WGS84 +to_meter=0.9144", true, 0.9144, 0},
 	}
 	if !full {
 		return o
@@ -223,7 +225,7 @@ func Lattice(full bool) []Def {
 			opts = ko
 		}
 		for _, o := range opts {
-			geo := "+proj=longlat " + strings.ReplaceAll(strings.ReplaceAll(o.text, " +units=ft", ""), " +units=us-ft", "")
+			geo := "+proj=longlat " + strings.ReplaceAll(strings.ReplaceAll(strings.ReplaceAll(o.text, " +units=ft", ""), " +units=us-ft", ""), " +to_meter=0.9144", "")
 			d := Def{
 				Name: pa.proj + "|" + pa.text + "|" + o.label, Proj: pa.proj, Params: pa.text, Ellps: o.text,
 				Proj4: pa.text + " " + o.text, Geo: geo, HasDatum: o.hasDatum, ToMeter: o.toMeter, Pm: o.pm, Option: o.label,
